@@ -1146,6 +1146,246 @@ Proof.
   apply emit_valid. apply (optimize_preserves fuel d s p acc egr bd js js' used Hwf Hmw Hok H).
 Qed.
 
+(* ============================================================================================== *)
+(* F. the rewrites keep the ends of the journey: the access and egress walk steps and the first
+   boarding connection are unchanged (a leg is re-entered only as the `to` leg of BTS / CSS, and
+   to > from >= 1); the last alighting connection arrives at the same stop, no later (CSL may
+   shorten what becomes the last leg).  Phrased as an invariant relative to fixed reference values. *)
+
+Definition ends_ok (a0 e0 : jstep) (b1 el0 : conn) (js : list jstep) : Prop :=
+  exists legs el, js = a0 :: legs ++ [e0] /\ first_board legs = Some b1 /\
+                  last_alight legs = Some el /\ c_arr el <= c_arr el0 /\ c_to el = c_to el0.
+
+Lemma ends_ok_init : forall a0 e0 b1 el0 legs,
+  first_board legs = Some b1 -> last_alight legs = Some el0 -> ends_ok a0 e0 b1 el0 (a0 :: legs ++ [e0]).
+Proof.
+  intros a0 e0 b1 el0 legs Hfb Hla. exists legs, el0.
+  split; [reflexivity|]. split; [exact Hfb|]. split; [exact Hla|]. split; [lia|reflexivity].
+Qed.
+
+Lemma jchain_suffix : forall d p L1 r R, R <> [] -> jchain_ok d p r (L1 ++ R) = true ->
+  exists r', jchain_ok d p r' R = true.
+Proof.
+  intros d p. induction L1 as [|z L1 IH]; intros r R HR H.
+  - exists r. exact H.
+  - cbn [app] in H. apply jchain_step in H.
+    destruct H as (b & e & Hb & He & Hbd & [Hnil|(b' & Hfb & Hl & Hc)]).
+    + exfalso. destruct L1 as [|z' L1']; [cbn [app] in Hnil; contradiction|discriminate Hnil].
+    + apply (IH _ R HR Hc).
+Qed.
+
+Lemma ends_replace : forall a0 e0 b1 el0 (a e : jstep) L1 x M y L2 x' T,
+  ends_ok a0 e0 b1 el0 ((a :: L1) ++ x :: M ++ y :: (L2 ++ [e])) ->
+  js_enter x' = js_enter x ->
+  (forall el, last_alight (y :: L2) = Some el ->
+     exists el', last_alight (x' :: T ++ L2) = Some el' /\ c_arr el' <= c_arr el /\ c_to el' = c_to el) ->
+  ends_ok a0 e0 b1 el0 ((a :: L1) ++ x' :: T ++ (L2 ++ [e])).
+Proof.
+  intros a0 e0 b1 el0 a e L1 x M y L2 x' T (legs & el & Ejs & Hfb & Hla & Harr & Hto) Hen Hlast.
+  cbn [app] in Ejs. injection Ejs as Ea Erest. subst a0.
+  replace (L1 ++ x :: M ++ y :: L2 ++ [e]) with ((L1 ++ x :: M ++ y :: L2) ++ [e]) in Erest.
+  2:{ rewrite <- app_assoc. cbn [app]. rewrite <- app_assoc. reflexivity. }
+  apply app_inj_tail in Erest. destruct Erest as [Elegs Ee]. subst legs e0.
+  replace (L1 ++ x :: M ++ y :: L2) with ((L1 ++ x :: M) ++ y :: L2) in Hla
+    by (rewrite <- app_assoc; reflexivity).
+  rewrite last_alight_app in Hla by discriminate.
+  destruct (Hlast el Hla) as (el' & Hla' & Harr' & Hto').
+  exists (L1 ++ x' :: T ++ L2), el'. split.
+  - cbn [app]. f_equal. rewrite <- app_assoc. cbn [app]. rewrite <- app_assoc. reflexivity.
+  - split; [rewrite (first_board_app L1 x (M ++ y :: L2) x' (T ++ L2) Hen); exact Hfb|].
+    split; [rewrite last_alight_app by discriminate; exact Hla'|]. split; [lia|congruence].
+Qed.
+
+(* BTS / GTF / CSS: x keeps its boarding, y keeps its exit *)
+Lemma ends_pair : forall a0 e0 b1 el0 (a e : jstep) L1 x M y L2 x' y',
+  ends_ok a0 e0 b1 el0 ((a :: L1) ++ x :: M ++ y :: (L2 ++ [e])) ->
+  js_enter x' = js_enter x -> js_exit y' = js_exit y ->
+  ends_ok a0 e0 b1 el0 ((a :: L1) ++ x' :: [y'] ++ (L2 ++ [e])).
+Proof.
+  intros a0 e0 b1 el0 a e L1 x M y L2 x' y' Hends Hen Hex.
+  apply (ends_replace a0 e0 b1 el0 a e L1 x M y L2 x' [y'] Hends Hen).
+  intros el Hel. exists el. split; [|split; [lia|reflexivity]]. cbn [app].
+  destruct L2 as [|z L2'].
+  - rewrite last_alight_cons by discriminate. rewrite last_alight_one in *. congruence.
+  - rewrite last_alight_cons by discriminate.
+    rewrite !last_alight_cons in Hel by discriminate.
+    rewrite !last_alight_cons by discriminate. exact Hel.
+Qed.
+
+Section Ends.
+  Variables (d : data) (s : scenario) (p : params) (acc egr : list fprow) (bd : Z).
+  Hypothesis Hwf : wf_data_b d = true.
+  Hypothesis Hmw : 0 <= q_minw p.
+
+  (* CSL: the connection that becomes x's exit arrives no later than y's exit did *)
+  Lemma csl_arrival : forall a e L1 x M y S bx ex tx trx kbx kex by_ ey ty try kby key cx kx,
+    journey_ok_P d s p acc egr bd a (L1 ++ x :: M ++ y :: S) e ->
+    leg_at d s p x bx ex tx trx kbx kex -> leg_at d s p y by_ ey ty try kby key ->
+    at_pos d trx kx cx -> (kx <= kex)%nat -> c_arr cx <= c_arr ey.
+  Proof.
+    intros a e L1 x M y S bx ex tx trx kbx kex by_ ey ty try kby key cx kx HP Hx Hy Pcx Hkx.
+    destruct (journey_legs_split d s p acc egr bd a e L1 x M y S HP) as (_ & _ & HxM).
+    destruct HP as (_ & _ & _ & b1 & el & _ & _ & _ & _ & Hch).
+    destruct (jchain_suffix d p L1 _ (x :: M ++ y :: S) ltac:(discriminate) Hch) as (r & Hr).
+    pose proof Hx as (_ & Hex & _ & Ftx & _ & Pex & _).
+    destruct (chain_clock d s p Hwf Hmw M x y S r ex HxM Hex Hr) as (ry & Hry & Hcy & _).
+    apply jchain_step in Hcy. destruct Hcy as (b' & e' & Hb' & _ & Hbd & _).
+    pose proof Hy as (Hby & _). rewrite Hby in Hb'. injection Hb' as <-.
+    destruct (leg_at_facts d s p Hwf _ _ _ _ _ _ _ Hy) as [Hdy _].
+    destruct (at_pos_times d tx trx kx kex cx ex Hwf Ftx Pcx Pex Hkx) as (_ & Harr & _).
+    pose proof (minw_true_nonneg p Hmw by_) as Hmn. lia.
+  Qed.
+
+  Lemma ends_single : forall a0 e0 b1 el0 a e L1 x M y L2 x' bx ex tx trx kbx kex by_ ey ty try kby key cx kx,
+    journey_ok_P d s p acc egr bd a (L1 ++ x :: M ++ y :: L2) e ->
+    ends_ok a0 e0 b1 el0 ((a :: L1) ++ x :: M ++ y :: (L2 ++ [e])) ->
+    leg_at d s p x bx ex tx trx kbx kex -> leg_at d s p y by_ ey ty try kby key ->
+    at_pos d trx kx cx -> (kx <= kex)%nat -> c_to cx = c_to ey ->
+    js_enter x' = Some bx -> js_exit x' = Some cx ->
+    ends_ok a0 e0 b1 el0 ((a :: L1) ++ x' :: [] ++ (L2 ++ [e])).
+  Proof.
+    intros a0 e0 b1 el0 a e L1 x M y L2 x' bx ex tx trx kbx kex by_ ey ty try kby key cx kx
+           HP Hends Hx Hy Pcx Hkx Hnode Hbx' Hex'.
+    pose proof (csl_arrival a e L1 x M y L2 bx ex tx trx kbx kex by_ ey ty try kby key cx kx
+                            HP Hx Hy Pcx Hkx) as Harr.
+    pose proof Hx as (Hbx & _). pose proof Hy as (_ & Hey & _).
+    apply (ends_replace a0 e0 b1 el0 a e L1 x M y L2 x' [] Hends); [congruence|].
+    intros el Hel. cbn [app].
+    destruct L2 as [|z L2'].
+    - rewrite last_alight_one in *. exists cx. split; [exact Hex'|].
+      rewrite Hey in Hel. injection Hel as <-. split; [exact Harr|exact Hnode].
+    - exists el. split; [|split; [lia|reflexivity]].
+      rewrite !last_alight_cons in Hel by discriminate.
+      rewrite !last_alight_cons by discriminate. exact Hel.
+  Qed.
+End Ends.
+
+Theorem optimize_ends_gen : forall d s p acc egr bestdep a0 e0 b1 el0,
+  wf_data_b d = true -> 0 <= q_minw p ->
+  forall fuel js used ign js' used',
+    journey_ok_b d s p acc egr bestdep js = true -> ends_ok a0 e0 b1 el0 js ->
+    optimize fuel d js used ign = OptDone js' used' ->
+    ends_ok a0 e0 b1 el0 js'.
+Proof.
+  intros d s p acc egr bd a0 e0 b1 el0 Hwf Hmw.
+  induction fuel as [|f IH]; intros js used ign js' used' Hok Hends H; [discriminate|].
+  cbn [optimize] in H.
+  destruct (detect d ign js 0 []) as [[[[[cs X] i] j]|]|] eqn:Hdet; [| |discriminate].
+  2:{ injection H as <- _. exact Hends. }
+  destruct (detect_top d ign js cs X i j Hdet)
+    as (Hr & bi & ei & bj & ej & Hbi & Hei & Hbj & Hej & Hcase).
+  destruct (journey_ok_inv d s p acc egr bd js Hok) as (a & legs & e & Ejs & HP).
+  destruct (split_two js i j Hr) as (P & x & M & y & S & EQ & LP & LJ).
+  rewrite EQ in Hbi, Hei, Hbj, Hej.
+  rewrite (nth_js_from P M S x y i LP) in Hbi, Hei.
+  rewrite (nth_js_to P M S x y i j LP LJ) in Hbj, Hej.
+  pose proof HP as (Ha & He & _).
+  apply Totals.is_walk_inv in Ha. apply Totals.is_walk_inv in He.
+  pose proof EQ as EQ2. rewrite Ejs in EQ2.
+  destruct (split_legs a e legs P x M y S EQ2 (proj1 Ha) (proj1 He)
+              ltac:(congruence) ltac:(congruence)) as (L1 & L2 & EP & ES & EL).
+  clear EQ2 Ejs. subst P S legs. subst js. clear Ha He.
+  destruct (journey_legs_split d s p acc egr bd a e L1 x M y L2 HP) as (Hxok & Hyok & _).
+  destruct (jleg_ok_at d s p x Hxok) as (bx & ex & tx & trx & kbx & kex & Hatx).
+  destruct (jleg_ok_at d s p y Hyok) as (by_ & ey & ty & try & kby & key & Haty).
+  pose proof Hatx as (Hbx & Hex & Htx & Ftx & Pbx & Pex & Hkx & _ & Cbx & Cux).
+  pose proof Haty as (Hby & Hey & Hty & Fty & Pby & Pey & Hky & _ & Cby & Cuy).
+  rewrite Hbx in Hbi. injection Hbi as <-. rewrite Hex in Hei. injection Hei as <-.
+  rewrite Hby in Hbj. injection Hbj as <-. rewrite Hey in Hej. injection Hej as <-.
+  set (PP := a :: L1) in *. set (SS := L2 ++ [e]) in *.
+  destruct (Nat.eqb cs 1) eqn:C1.
+  { (* CSL *)
+    apply Nat.eqb_eq in C1. subst cs.
+    destruct Hcase as [[_ HX]|[[C _]|[[C _]|C]]]; try discriminate.
+    rewrite (nth_js_from PP M SS x y i LP) in H.
+    destruct (leg_range d x) as [rng|] eqn:Hrng; [|discriminate].
+    destruct (find (fun c => Nat.eqb X (c_to c)) rng) as [c|] eqn:Hf; [|apply (IH _ _ _ _ _ Hok Hends H)].
+    destruct (c_cu c) eqn:Hcu; cbn [negb] in H; [|apply (IH _ _ _ _ _ Hok Hends H)].
+    cbv zeta in H.
+    rewrite (nth_js_to PP M SS x y i j LP LJ) in H.
+    rewrite (surgery_from _ PP M SS x y i LP) in H.
+    rewrite (surgery_erase_closed _ PP M SS _ y i j LP LJ) in H.
+    apply find_some in Hf. destruct Hf as [Hin Hc]. apply Nat.eqb_eq in Hc.
+    destruct (leg_range_in d s p x bx ex tx trx kbx kex rng c Hwf Hatx Hrng Hin) as (k & Hk & Pc).
+    refine (IH _ _ _ _ _ _ _ H).
+    - apply (finish d s p acc egr bd a e _ L1 [] L2).
+      apply (rewrite_single d s p acc egr bd Hwf Hmw a e L1 x M y L2 _
+               bx ex tx trx kbx kex by_ ey ty try kby key c k HP Hatx Haty Pc Hk Hcu);
+        try assumption; try reflexivity. congruence.
+    - apply (ends_single d s p acc egr bd Hwf Hmw a0 e0 b1 el0 a e L1 x M y L2 _
+               bx ex tx trx kbx kex by_ ey ty try kby key c k HP Hends Hatx Haty Pc ltac:(lia));
+        try assumption; try reflexivity. congruence. }
+  destruct (Nat.eqb cs 2) eqn:C2.
+  { (* BTS *)
+    apply Nat.eqb_eq in C2. subst cs.
+    destruct Hcase as [[C _]|[[_ HX]|[[C _]|C]]]; try discriminate.
+    rewrite (nth_js_to PP M SS x y i j LP LJ) in H.
+    destruct (leg_range d y) as [rng|] eqn:Hrng; [|discriminate].
+    destruct (find (fun c => Nat.eqb X (c_from c)) rng) as [c|] eqn:Hf;
+      [|injection H as <- _; exact Hends].
+    destruct (c_cb c) eqn:Hcb; cbn [negb] in H; [|injection H as <- _; exact Hends].
+    rewrite (surgery_to _ PP M SS x y i j LP LJ) in H.
+    rewrite (surgery_from _ PP M SS x _ i LP) in H.
+    rewrite (surgery_erase_open _ PP M SS _ _ i j LP LJ) in H.
+    injection H as <- _.
+    apply (ends_pair a0 e0 b1 el0 a e L1 x M y L2 _ _ Hends); reflexivity. }
+  destruct (Nat.eqb cs 3) eqn:C3.
+  { (* GTF *)
+    apply Nat.eqb_eq in C3. subst cs.
+    destruct Hcase as [[C _]|[[C _]|[[_ HX]|C]]]; try discriminate.
+    rewrite (nth_js_from PP M SS x y i LP) in H.
+    destruct (leg_range d x) as [rng|] eqn:Hrng; [|discriminate].
+    destruct (find (fun c => Nat.eqb X (c_to c)) rng) as [c|] eqn:Hf; [|apply (IH _ _ _ _ _ Hok Hends H)].
+    destruct (c_cu c) eqn:Hcu; cbn [negb] in H; [|apply (IH _ _ _ _ _ Hok Hends H)].
+    rewrite (surgery_from _ PP M SS x y i LP) in H.
+    rewrite (surgery_erase_open _ PP M SS _ y i j LP LJ) in H.
+    apply find_some in Hf. destruct Hf as [Hin Hc]. apply Nat.eqb_eq in Hc.
+    destruct (leg_range_in d s p x bx ex tx trx kbx kex rng c Hwf Hatx Hrng Hin) as (k & Hk & Pc).
+    refine (IH _ _ _ _ _ _ _ H).
+    - apply (finish d s p acc egr bd a e _ L1 [_] L2).
+      apply (rewrite_pair d s p acc egr bd Hwf Hmw a e L1 x M y L2 _ _
+               bx ex tx trx kbx kex by_ ey ty try kby key c k by_ kby HP Hatx Haty Pc Hk Hcu Pby
+               ltac:(lia) Cby);
+        try assumption; try reflexivity. congruence.
+    - apply (ends_pair a0 e0 b1 el0 a e L1 x M y L2 _ _ Hends); reflexivity. }
+  (* CSS *)
+  rewrite (nth_js_from PP M SS x y i LP) in H.
+  rewrite (nth_js_to PP M SS x y i j LP LJ) in H.
+  destruct (leg_range d x) as [rf|] eqn:Hrf; [|discriminate].
+  destruct (leg_range d y) as [rt|] eqn:Hrt; [|discriminate].
+  cbv zeta in H.
+  destruct (css_second X (css_first X rf None) rt (PP ++ x :: M ++ y :: SS) i j used ign)
+    as [[js1 used1] ign1] eqn:Hcs.
+  destruct (css_second_spec _ _ _ _ _ _ _ _ _ _ _ Hcs) as [->|(cx & cy & Hfirst & Hin2 & Hfrom & Hcb & ->)].
+  - apply (IH _ _ _ _ _ Hok Hends H).
+  - destruct (css_first_in _ _ _ _ Hfirst) as [Hno|(Hin1 & Hto & Hcu)]; [discriminate|].
+    rewrite (surgery_from _ PP M SS x y i LP) in H.
+    rewrite (surgery_to _ PP M SS _ y i j LP LJ) in H.
+    rewrite (surgery_erase_open _ PP M SS _ _ i j LP LJ) in H.
+    destruct (leg_range_in d s p x bx ex tx trx kbx kex rf cx Hwf Hatx Hrf Hin1) as (k1 & Hk1 & Pc1).
+    destruct (leg_range_in d s p y by_ ey ty try kby key rt cy Hwf Haty Hrt Hin2) as (k2 & Hk2 & Pc2).
+    refine (IH _ _ _ _ _ _ _ H).
+    + apply (finish d s p acc egr bd a e _ L1 [_] L2).
+      apply (rewrite_pair d s p acc egr bd Hwf Hmw a e L1 x M y L2 _ _
+               bx ex tx trx kbx kex by_ ey ty try kby key cx k1 cy k2 HP Hatx Haty Pc1 Hk1 Hcu Pc2 Hk2 Hcb);
+        try assumption; try reflexivity. congruence.
+    + apply (ends_pair a0 e0 b1 el0 a e L1 x M y L2 _ _ Hends); reflexivity.
+Qed.
+
+(* the form used by Proofs/Limits.v: from the journey calc_reverse hands over to what is emitted *)
+Corollary optimize_ends : forall fuel d s p acc egr bestdep a legs e b1 el js' used,
+  wf_data_b d = true -> 0 <= q_minw p ->
+  journey_ok_b d s p acc egr bestdep (a :: legs ++ [e]) = true ->
+  first_board legs = Some b1 -> last_alight legs = Some el ->
+  optimize fuel d (a :: legs ++ [e]) [] [] = OptDone js' used ->
+  exists legs' el', js' = a :: legs' ++ [e] /\ first_board legs' = Some b1 /\
+                    last_alight legs' = Some el' /\ c_arr el' <= c_arr el /\ c_to el' = c_to el.
+Proof.
+  intros fuel d s p acc egr bd a legs e b1 el js' used Hwf Hmw Hok Hfb Hla H.
+  apply (optimize_ends_gen d s p acc egr bd a e b1 el Hwf Hmw fuel _ [] [] js' used Hok
+           (ends_ok_init a e b1 el legs Hfb Hla) H).
+Qed.
+
 (* ---------------------------------------------------------------------------------------------- *)
 (* the hypothesis 0 <= q_minw p is needed: with a negative minimum waiting time the clock may go
    back along a valid chain, and then CSL (alight earlier on the first trip, drop the detour) breaks
@@ -1194,3 +1434,4 @@ Proof. vm_compute. repeat split; reflexivity. Qed.
 
 Print Assumptions optimize_preserves.
 Print Assumptions optimize_emit_valid.
+Print Assumptions optimize_ends.
